@@ -117,6 +117,7 @@ def lockRWoke (s : Mx) (t : Tid) (notified : Bool) : Mx × Res :=
 def lockWStart (s : Mx) (t : Tid) (m : Mode) : Mx × Res :=
   if t ∈ s.exec then
     if s.rw t > 0 ∨ s.exec.length = 1 then ({ s with rw := upd s.rw t (s.rw t + 1), total := s.total + 1 }, .done .ok)
+    else if m = .try_ then (s, .done .timedOut)   -- `if (optTimeoutTimestamp == 0) return B_TIMED_OUT;` (fix d881489: before any read lock is dropped)
     else (s, .upgrade (s.ro t))
   else if okWriter s t then ({ s with exec := s.exec ++ [t], rw := upd s.rw t 1, total := s.total + 1 }, .done .ok)
   else if m = .try_ then (s, .done .timedOut)
